@@ -42,12 +42,32 @@ def freeze (a : Arr CF) : Arr CF :=
 
 def freezeF (f : Fld CF) : Fld CF := { f with arr := freeze f.arr }
 
-/-- {"shape","off","re","im","fix":[i,i],"sub":[bits,bits]} → field with its shift split -/
+/-- `np.fix` at Float: toward zero -/
+instance : TruncLike Float := ⟨fun s => if s ≥ 0 then s.floor.toInt64.toInt else s.ceil.toInt64.toInt⟩
+
+/-- {"shape","off","re","im","shift":[bits,bits]} → field with its shift split by the model's `np.fix` (`tfieldOfShift`);
+{"fix":[i,i],"sub":[bits,bits]} (an explicit split) is accepted too -/
 def tfieldOfJson (j : Json) : R (TField CF Float) := do
   let f ← cfFldOfJson j
-  let fx ← getInts j "fix"
-  let sb ← getFloats j "sub"
-  pure { fld := f, fix0 := fx[0]!, fix1 := fx[1]!, sub0 := sb[0]!, sub1 := sb[1]! }
+  match optVal j "shift" with
+  | some _ =>
+    let s ← getFloats j "shift"
+    pure (tfieldOfShift f s[0]! s[1]!)
+  | none =>
+    let fx ← getInts j "fix"
+    let sb ← getFloats j "sub"
+    pure { fld := f, fix0 := fx[0]!, fix1 := fx[1]!, sub0 := sb[0]!, sub1 := sb[1]! }
+
+/-- {"mask_values": {"shape":[..],"v":[bits..]}} → the mask array thresholded at 0 (`x > threshold`) -/
+def maskArrOfJson (j : Json) : R (Option (Arr Bool)) :=
+  match optVal j "mask_values" with
+  | none => pure none
+  | some Json.null => pure none
+  | some m => do
+    let sh ← getInts m "shape"
+    let v ← getFloats m "v"
+    let a : Arr Float := { s0 := sh[0]!, s1 := sh[1]!, get := mkGet sh[1]! v }
+    pure (some (gtMask a 0))
 
 def maskOfJson (j : Json) : R (Option Extent) :=
   match optVal j "mask" with
@@ -65,13 +85,21 @@ def handle (op : String) (j : Json) : Option (R Json) :=
       let wl ← getFloat j "wl"; let z ← getFloat j "z"
       let os ← getInt j "os"
       let sh ← getInts j "shape"; let ps ← getInts j "prop_shape"
-      let mask ← maskOfJson j
+      let maskArr ← maskArrOfJson j
+      -- the mask box: from the mask array itself (`lentil.boundary` model) when given, else the box passed in
+      let mask ← match maskArr with
+        | some m => match boundary m with
+          | some b => pure (some b)
+          | none => throw "IndexError"
+        | none => maskOfJson j
       let al := dftAlpha dx[0]! dx[1]! du[0]! du[1]! wl z os
       let out := (propagateDft fs.toList al.1 al.2 sh[0]! sh[1]! ps[0]! ps[1]! os mask).map freezeF
       let canvas := wavefrontField one out (sh[0]! * os) (sh[1]! * os)
       let mt := dftMeta dx[0]! dx[1]! du[0]! du[1]! wl z os
       pure (okJ [("fields", Json.arr (out.map cfFldToJson).toArray), ("canvas", cfArrToJson canvas),
                  ("alpha", Json.arr #[floatToJson al.1, floatToJson al.2]),
+                 ("splits", Json.arr (fs.map fun t => Json.arr #[intJ t.fix0, intJ t.fix1, floatToJson t.sub0, floatToJson t.sub1])),
+                 ("mask_box", match mask with | some b => extToJson b | none => Json.null),
                  ("wavelength", floatToJson mt.1), ("focal_length", floatToJson mt.2.2),
                  ("pixelscale", Json.arr #[floatToJson mt.2.1.1, floatToJson mt.2.1.2])])
   | "c02.window" => some do
